@@ -335,6 +335,8 @@ func init() {
 	registerRand(reg)
 	registerCRC(reg)
 	registerLocalRand(reg)
+	registerTaint(reg)
+	registerECDSA(reg)
 }
 
 func concreteF1(f func(float64) float64) intrinsic {
@@ -468,6 +470,12 @@ func (in *Interp) catchPanic(f Value) (gp *goPanicV) {
 }
 
 func (in *Interp) lookupIntrinsic(fn *ssa.Function) intrinsic {
+	if len(in.stubbed) > 0 {
+		n := fn.String()
+		if in.stubbed[n] || in.stubbed[strings.ReplaceAll(n, "github.com/elastos/Elastos.ELA/", "")] {
+			return zeroReturn
+		}
+	}
 	if i, ok := in.funcCache[fn]; ok {
 		return i
 	}
